@@ -542,4 +542,12 @@ def triggerAt (meth : Method) (a mid : DMap) (r c : Nat) : String :=
     | .sgm, .mismAsOccl => if (nums (sourcesSgm mid r c)).length < 2 then "sgm_occlusion_fewer_than_two_valid" else ""
     | _, _ => ""
 
+/-! ### `interpolate_nodata_sgm` of pandora/img_tools.py (same scan, used by the multiscale pyramid): every invalid pixel
+    takes the median of its 8 neighbours in sight and the flag word `FILLED_NODATA` (no guard: NaN when nothing is in sight) -/
+
+/-- one pixel of `interpolate_nodata_sgm(img, valid)`; `m.disp` is the image -/
+def nodataSgmPixel (m : DMap) (r c : Nat) : Val × Nat :=
+  if (m.flag r c &&& pixelInvalid) != 0 then (nanmedian (findValidNeighbors m r c), filledNodata)
+  else (m.disp r c, m.flag r c)
+
 end Pandora.Interp
